@@ -310,6 +310,11 @@ class Tgt:
     def __init__(self):
         self.x = 'attr'
 
+    def __eq__(self, other):
+        return type(other) is Tgt and self.__dict__ == other.__dict__
+
+    __hash__ = None
+
 
 def isolation(order: int, which: int) -> bool:
     """registrations on one registry are invisible to the others; default Glommer == module glom"""
@@ -340,11 +345,18 @@ def isolation(order: int, which: int) -> bool:
 def glommer_default(shape: int, x: int, y: int) -> bool:
     """a default Glommer behaves like the module-level glom"""
     start()
+    shape = concretize(shape, 0, 11)
+    if shape is OUT:
+        return True
     t = {'a': {'b': [x, y]}, 'o': Tgt(), 'n': None}
-    spec = ['a.b.0', 'a.b.5', ('a.b', [T]), {'k': 'o.x', 'l': ('a', 'b', len)}, 'n.zz', 'a.*.1', ('a.b', sum)][shape]
+    spec = ['a.b.0', 'a.b.5', ('a.b', [T]), {'k': 'o.x', 'l': ('a', 'b', len)}, 'n.zz', 'a.*.1', ('a.b', sum),
+            (glom_pkg.Assign('a.c', x), 'a.c'), (glom_pkg.Delete('a.b'), 'a'), (glom_pkg.Assign('o.y', y), 'o.y'),
+            (glom_pkg.Assign(Path('a', 'b', 0), y), 'a.b'), glom_pkg.Delete('a.zz', ignore_missing=True)][shape]
     g = Glommer()
+    import copy
+    t2 = copy.deepcopy(t)
     r1 = run(lambda: g.glom(t, spec, glom_debug=True))
-    r2 = run(lambda: glom(t, spec, glom_debug=True))
+    r2 = run(lambda: glom(t2, spec, glom_debug=True))
     reach('glommer_default')
     if r1.kind != r2.kind:
         return fail(r1=r1, r2=r2)
@@ -394,7 +406,7 @@ def obligations(tier):
                 obs.append(Ob(real_family, fixed={'fam': fam, 'flavour': flavour, 'op': op}, pre=pre,
                               name='real_family_%s_f%d_op%d' % (FAM_NAMES[fam], flavour, op), timeout=120))
     obs.append(Ob(isolation, pre='0 <= order <= 5 and 0 <= which <= 1', name='isolation'))
-    obs.append(Ob(glommer_default, pre='0 <= shape <= 6', name='glommer_default'))
+    obs.append(Ob(glommer_default, pre='0 <= shape <= 11', name='glommer_default'))
     obs.append(Ob(virt3, fixed={'nreg': 2, 'a': 0, 'b': 1, 'c': 2, 'ec': False, 'probe_between': True}, twin='ancestor', name='virt3_n2'))
     obs.append(Ob(virt3, fixed={'nreg': 2, 'a': 0, 'b': 1, 'c': 2, 'ec': False, 'probe_between': True}, twin='unreg', name='virt3_n2'))
     obs.append(Ob(real_family, fixed={'fam': 0, 'flavour': 0, 'op': 0}, pre='0 <= i0 <= 3 and 0 <= i1 <= 3 and 1 <= nreg <= 2', twin='real_ancestor', name='real_family_chain'))
